@@ -54,7 +54,9 @@ def _check_case(ctx, r, indent, eol, add_ws):
         want = layout.list_str(r["c"], indent, eol, add_ws)
         how = "TagList.get_html_string"
     else:
-        got = obj.get_html_string(indent, eol)
+        form = (indent * 3 + len(eol)) % 4
+        got = (obj.get_html_string(indent, eol) if form == 0 else obj.get_html_string(indent=indent, eol=eol) if form == 1
+               else obj.get_html_string(eol=eol, indent=indent) if form == 2 else obj.get_html_string(indent, eol=eol))
         want = layout.tag_str(r, indent, eol)
         how = "Tag.get_html_string"
     ctx.count("oracle.layout")
